@@ -27,12 +27,16 @@
 (* Check names: "py=rust..." and "accept:/tree:/bytes:..." compare the two  *)
 (* implementations, "spec:..." compare Rust with the specification.         *)
 (***************************************************************************)
-EXTENDS Sexp, TLC, Json, IOUtils
+EXTENDS Sexp, Prim, TLC, Json, IOUtils
 
 SC  == INSTANCE SerClassic
 S26 == INSTANCE Ser2026
 BR  == INSTANCE SerBackrefs
-THM == INSTANCE TreeHash
+
+\* The tree hash: TreeHash!TH, restated here because the SHA-256 module override (Prim.class) is
+\* bound to operators reached through EXTENDS, not through a named INSTANCE.
+RECURSIVE TH(_)
+TH(t) == IF IsAtom(t) THEN SHA256(<< 1 >> \o t.a) ELSE SHA256(<< 2 >> \o TH(t.f) \o TH(t.r))
 
 Rec == ndJsonDeserialize(IOEnv.TRACE)
 
@@ -75,7 +79,7 @@ SpecDeser(fn, b, max, strict) ==
 ---------------------------------------------------------------------------
 (* C26 *)
 
-IsBytes(x) == DOMAIN x = 1..Len(x)       \* a byte array (not an {err: ..} record)
+IsBytes(x) == x # << 999 >>             \* a byte array; << 999 >> marks "the call raised an error"
 
 NormDeser(r) ==
   IF Has(r, "panic") \/ Has(r, "pyexc") \/ Has(r, "views") THEN [bad |-> r]
@@ -140,7 +144,7 @@ HashKeys == << "tree_hash", "sha256_treehash" >>
 
 PySerFails(e) ==
   LET t == TreeOf(e.tree)
-      h == THM!TH(t)
+      h == TH(t)
   IN  BadKeys("bytes:", SerKeys, e.py, e.rust)
       \o BadKeys("hash:", HashKeys, e.py, h)
       \o (IF e.rust # SC!Encode(t) THEN << "spec:encode" >> ELSE << >>)
@@ -165,7 +169,7 @@ TuplesCmp(name, p, r) ==
 
 CTreeCmp(name, p, rt, r, blob) ==
   IF Has(p, "pyexc") THEN << "exception:" \o name >>
-  ELSE IF Has(rt, "panic") THEN << "rust:panic" >>
+  ELSE IF Has(rt, "panic") \/ Has(r, "panic") THEN << "rust:panic" >>
   ELSE IF p.ok # rt.ok THEN << "accept:" \o name >>
   ELSE IF ~p.ok THEN << >>
   ELSE (IF r.ok /\ TreeOf(p.tree) # TreeOf(r.tree) THEN << "tree:" \o name >> ELSE << >>)
@@ -227,7 +231,7 @@ CurryFails(e) ==
   ELSE LET m == TreeOf(e.m)
            args == Trees(e.args)
            want == CurryTree(m, args)
-           h == THM!TH(want)
+           h == TH(want)
        IN  (IF TreeOf(e.tree) # want THEN << "curry" >> ELSE << >>)
            \o (IF e.curry_hash # h THEN << "curry_hash" >> ELSE << >>)
            \o (IF e.tree_hash # h THEN << "tree_hash" >> ELSE << >>)
